@@ -177,7 +177,7 @@ static int cmd_forces(const Args& a) {
         std::string family; gen::TriMesh m = make_mesh(g, family);
         bool jit = g.coin(0.7) && family.rfind("sliver", 0) != 0; if (jit) gen::jitter(m, g, g.uni(0.005, 0.05));   // jitter would fold the needles of the sliver family
         gen::rotate(m, gen::rot_random(g));
-        const double scale = g.logu(1e-6, 1e1); gen::scale(m, scale, scale, scale);
+        const double scale = g.coin(0.15) ? g.logu(1e-10, 1e-6) : g.logu(1e-6, 1e1); gen::scale(m, scale, scale, scale);
         double brad = 0; for (auto& p : m.P) brad = std::max(brad, std::sqrt(p[0] * p[0] + p[1] * p[1] + p[2] * p[2]));
         const double off_rel = g.coin(0.25) ? 0.0 : g.logu(1e-2, 30);
         { double d[3] = {g.normal(), g.normal(), g.normal()}; double n = std::sqrt(d[0] * d[0] + d[1] * d[1] + d[2] * d[2]); gen::translate(m, d[0] / n * off_rel * brad, d[1] / n * off_rel * brad, d[2] / n * off_rel * brad); }
